@@ -67,7 +67,10 @@ def value_text(f):
     v = f["value"]
     if f.get("help") is not None:
         inner = f"default={v}" if v is not None and not v.startswith("field(") else (v[len("field("):-1] if v else "")
-        v = "field(" + ", ".join(x for x in [inner, f"help={f['help']!r}"] if x) + ")"
+        # two ways of giving an explicit help: simple_parsing's field(help=..) (kept in metadata['custom_args'] and laid over
+        # the generated options) and plain dataclasses metadata={'help': ..} (read by FieldWrapper.help)
+        how = f"help={f['help']!r}" if f.get("help_via", "custom") == "custom" else "metadata={'help': %r}" % f["help"]
+        v = "field(" + ", ".join(x for x in [inner, how] if x) + ")"
     return v
 
 
@@ -163,7 +166,8 @@ def mk_field(rng, cls, name, subset, blank=None, q=None, shape=None, nabove=None
                 above=[marker(cls, name, "above", i) for i in range(nabove or rng.choice([1, 1, 2, 3]))] if "above" in subset else [],
                 inline=marker(cls, name, "inline") if "inline" in subset else None,
                 below=mk_below(rng, cls, name, q, shape) if "below" in subset else None,
-                help=marker(cls, name, "help") if "help" in subset else None)
+                help=marker(cls, name, "help") if "help" in subset else None,
+                help_via=rng.choice(["custom", "metadata"]))
 
 
 def fix_required_order(fields):
@@ -435,7 +439,7 @@ def run_impl(cases):
     for case in cases:
         reset_simple_parsing_state()
         for fn in (D._get_attribute_docstring, real_getsource, real_getdoc, D.dp_parse):
-            fn.cache_clear()
+            getattr(fn, "cache_clear", lambda: None)()      # (a function that is not cached has nothing to clear)
         linecache.clearcache()
         _COUNTER[0] += 1
         modname = f"c19mod_{os.getpid()}_{_COUNTER[0]}"
@@ -495,7 +499,10 @@ def run_impl(cases):
                     for w in p._wrappers:
                         for fw in w.fields:
                             res.append(dict(field=fw.name, explicit=fw.field.metadata.get("help") or None,
-                                            parts=_snap(fw._docstring), help=fw.help))
+                                            parts=_snap(fw._docstring), help=fw.help,
+                                            custom=fw.custom_arg_options.get("help"),
+                                            has_default=fw.default is not None,
+                                            action_help=fw.arg_options.get("help")))
                     return res
                 r = outcome_of(build)
                 if r[0] != "ok":
@@ -572,6 +579,10 @@ def _failures(case, obs):
         want = spec_help(h["explicit"], spec_parts(case, obs, case["target"], h["field"]))
         if h["help"] != want:
             out.append(("help", f"help of {case['target']}.{h['field']} = {h['help']!r}, demanded {want!r}"))
+        ah = h["action_help"]
+        want = spec_help(h["custom"] if h["custom"] is not None else h["explicit"], spec_parts(case, obs, case["target"], h["field"]))
+        if (want is not None and ah != want) or (want is None and ah not in (None, "<__TEMP__>")):
+            out.append(("help", f"help= given to the argparse action of {case['target']}.{h['field']} = {ah!r}, demanded {want!r}"))
     return out
 
 
@@ -653,7 +664,8 @@ def to_coq(case, obs):
                   f"{clist([cpair(cstr(a), ctext(b)) for a, b in o['args']])} {c_layout(k)})")
     qs = [f"(mkq {cstr(cn)} {cstr(fn)} {c_parts(got)})" for (cn, fn), got in zip(case["queries"], obs["queries"])]
     hs = [f"(mkh {cstr(h['field'])} {copt(ctext(h['explicit'])) if h['explicit'] else 'None'} {c_parts(h['parts'])} "
-          f"{copt(ctext(h['help'])) if h['help'] is not None else 'None'})" for h in obs["helps"]]
+          f"{copt(ctext(h['help'])) if h['help'] is not None else 'None'} {copt(ctext(h['custom'])) if isinstance(h['custom'], str) else 'None'} {cbool(h['has_default'])} "
+          f"{copt(ctext(h['action_help'])) if isinstance(h['action_help'], str) else 'None'})" for h in obs["helps"]]
     return f"(mkcase {clist(ks)} {clist(qs)} {cstr(case.get('target') or '')} {clist(hs)} {cbool(case['spec'])})"
 
 
